@@ -566,6 +566,74 @@ def callable_classes_and_shared_reference_objects(col):
                               '%s, %s: %r, expected %r' % (sharing, desc, got, want), None)
 
 
+class _Row(dict):
+    def __init__(self, **cols):
+        dict.__init__(self, cols)
+
+
+def dict_subclass_specs_and_diamond_targets(col):
+    """"a dict spec yields a dict of the same type holding the sub-results" for specs that are instances of dict subclasses whose
+    constructors differ from dict's (keyword-only columns, defaultdict, Counter), at any depth; and a list spec / path over a target
+    whose class inherits from two registered classes uses the handlers of the nearest one in the MRO, whatever the registration order"""
+    import collections
+    from glom import Glommer
+    target = {'a': 3, 'b': {'c': 4}, 'l': [1, 2]}
+    specs = [
+        ('Row(**cols)', lambda: _Row(x='a', y='b.c'), _Row, {'x': 3, 'y': 4}),
+        ('defaultdict', lambda: collections.defaultdict(list, {'x': 'a', 'y': ('l', [T])}), collections.defaultdict, {'x': 3, 'y': [1, 2]}),
+        ('Counter', lambda: collections.Counter({'a': 'a', 'c': 'b.c'}), collections.Counter, {'a': 3, 'c': 4}),
+        ('OrderedDict', lambda: collections.OrderedDict([('y', 'b.c'), ('x', 'a')]), collections.OrderedDict, {'y': 4, 'x': 3}),
+        ('Row nested in a dict', lambda: {'row': _Row(x='a'), 'n': 'b.c'}, dict, {'row': {'x': 3}, 'n': 4}),
+        ('Counter per list element', lambda: ('l', [collections.Counter({'v': T})]), list, [{'v': 1}, {'v': 2}]),
+        ('Row as a Coalesce alternative', lambda: Coalesce('zz', _Row(x='a')), _Row, {'x': 3}),
+    ]
+    for desc, mk, want_type, want in specs:
+        got = call(G, target, mk())
+        col.case(('dict-subclass-spec', desc), True)
+        col.count('glom_evaluations')
+        ok = got.ok and type(got.value) is want_type and got.value == want
+        if ok and desc == 'Row nested in a dict':
+            ok = type(got.value['row']) is _Row
+        if ok and desc == 'Counter per list element':
+            ok = all(type(x) is collections.Counter for x in got.value)
+        if ok and desc == 'OrderedDict':
+            ok = list(got.value) == ['y', 'x']
+        if not ok:
+            col.violation('C03/dict-subclass-spec-does-not-yield-its-type-holding-the-sub-results', '%s: glom(.., %s) gives %r, expected a %s equal to %r'
+                          % (desc, short(repr(mk()), 100), got, want_type.__name__, want), None)
+
+    class Left:
+        def __init__(self):
+            self.items = ['l1', 'l2']
+            self.name = 'left-name'
+
+    class Right:
+        def __init__(self):
+            self.items = ['r1']
+            self.name = 'right-name'
+
+    class Both(Left, Right):       # MRO: Both, Left, Right
+        pass
+
+    class Both2(Right, Left):      # MRO: Both2, Right, Left
+        pass
+    for order in ('left-first', 'right-first'):
+        g = Glommer()
+        regs = [(Left, dict(iterate=lambda o: iter(['via-Left'] + o.items), get=lambda o, k: ('Left', k))),
+                (Right, dict(iterate=lambda o: iter(['via-Right'] + o.items), get=lambda o, k: ('Right', k)))]
+        for cls, kw in (regs if order == 'left-first' else regs[::-1]):
+            g.register(cls, **kw)
+        for cls, near in ((Both, 'Left'), (Both2, 'Right')):
+            for desc, spec, want in (('list spec', [T], ['via-' + near] + cls().items), ('path', 'name', (near, 'name')), ('dict of paths', {'n': 'name'}, {'n': (near, 'name')}),
+                                     ('chain', ('name', T[0]), near)):
+                got = call(g.glom, cls(), spec)
+                col.case(('diamond-target', order, cls.__name__, desc), True)
+                col.count('glom_evaluations')
+                if not (got.ok and got.value == want):
+                    col.violation('C03/target-with-two-registered-bases-not-handled-by-the-nearest', 'registered %s; %s over an instance of %s (MRO %s): %r, expected %r'
+                                  % (order, desc, cls.__name__, [c.__name__ for c in cls.__mro__[:3]], got, want), None)
+
+
 def run(ctx):
     col, rng = ctx.col, ctx.rng
     col.require('glom_evaluations', 1000)
@@ -582,6 +650,7 @@ def run(ctx):
             coalesce_default_comes_last_and_container_subclass_constants_pass_through(col)
             type_directed_targets(col)
             callable_classes_and_shared_reference_objects(col)
+            dict_subclass_specs_and_diamond_targets(col)
         for i in range(ctx.n(30000, 120000)):
             one_case(col, rng, tracer)
     finally:
